@@ -42,6 +42,50 @@ type c05Case struct {
 	// report / cli level: Options.SourcePath / Options.TrimPath (-source_path / -trim_path)
 	SourcePath string `json:"source_path,omitempty"`
 	TrimPath   string `json:"trim_path,omitempty"`
+	// cli level: leave the option off the command line (the command's documented default applies)
+	NoNodeCount bool `json:"nodecount_unset,omitempty"`
+	NoFractions bool `json:"fractions_unset,omitempty"`
+	// climono level: the nodecount settings to run and compare (c05Unset = option not given)
+	Counts []int `json:"counts,omitempty"`
+}
+
+const c05Unset = -1000
+
+// eff is the DOCUMENTED meaning of the trimming settings of a case (doc of the options in
+// internal/driver/commands.go and applyCommandOverrides): nodecount 0 = no limit, unset or -1 = the
+// command's default (no limit for text/top/topproto, 80 for graph-like commands); nodefraction /
+// edgefraction unset = 0.005 / 0.001; peek, callgrind and traces are never trimmed. In-process
+// report cases have no defaults: the values are report.Options fields.
+func (cs *c05Case) eff(cli bool) (nc int, fn, fd, en, ed int64) {
+	nc, fn, fd, en, ed = cs.NodeCount, cs.FracNum, cs.FracDen, cs.EdgeNum, cs.EdgeDen
+	if !cli {
+		return
+	}
+	if cs.NoNodeCount || nc == -1 {
+		switch cs.Format {
+		case "text", "top", "topproto":
+			nc = 0
+		default:
+			nc = 80
+		}
+	}
+	if cs.NoFractions {
+		fn, fd, en, ed = 5, 1000, 1, 1000
+	}
+	switch cs.Format {
+	case "peek", "callgrind", "traces":
+		nc, fn, fd, en, ed = 0, 0, 1, 0, 1
+	}
+	return
+}
+
+// c05FloatAmbiguous: total*num/den is an integer but den is not a power of two — the float64
+// product the code computes may fall on either side of it; such a cutoff is not judged.
+func c05FloatAmbiguous(total, num, den int64) bool {
+	if den <= 0 || den&(den-1) == 0 {
+		return false
+	}
+	return (total*num)%den == 0 && num != 0
 }
 
 func frac(num, den int64) float64 {
@@ -436,8 +480,13 @@ func subMultiset(shown, all []string) string {
 func c05CheckTrimmed(c *Ctx, cs *c05Case, level string, out []byte, U *gTable, rq gReq, p0 *profile.Profile, canon string, peekEmpty bool) bool {
 	var pr *parsedReport
 	var err error
+	effNC, effFN, effFD, effEN, effED := cs.eff(level == "cli")
+	if c05FloatAmbiguous(sumFlat(U), effFN, effFD) || c05FloatAmbiguous(sumFlat(U), effEN, effED) {
+		c.Res.Hit("skipped:non-dyadic-fraction-cutoff-on-an-integer-boundary")
+		return true
+	}
 	switch cs.Format {
-	case "text":
+	case "text", "top":
 		pr, err = parseText(string(out))
 	case "tree", "peek":
 		if peekEmpty {
@@ -451,7 +500,10 @@ func c05CheckTrimmed(c *Ctx, cs *c05Case, level string, out []byte, U *gTable, r
 		pr, err = parseTopProto(out)
 	}
 	sig := "C05/" + level + "/" + cs.Format + "/"
-	desc := fmt.Sprintf(" [nodecount=%d nodefraction=%d/%d edgefraction=%d/%d cum=%v %s]", cs.NodeCount, cs.FracNum, cs.FracDen, cs.EdgeNum, cs.EdgeDen, cs.CumSort, rq.String())
+	desc := fmt.Sprintf(" [nodecount=%d nodefraction=%d/%d edgefraction=%d/%d cum=%v %s]", effNC, effFN, effFD, effEN, effED, cs.CumSort, rq.String())
+	if level == "cli" && (cs.NoNodeCount || cs.NoFractions || cs.NodeCount != effNC) {
+		desc = fmt.Sprintf(" [command line: %s]", strings.Join(cs.cliArgs("FILE")[:len(cs.cliArgs("FILE"))-1], " ")) + desc
+	}
 	if err != nil {
 		c.Violation(sig+"unparsable", err.Error()+desc, cs)
 		return false
@@ -459,6 +511,7 @@ func c05CheckTrimmed(c *Ctx, cs *c05Case, level string, out []byte, U *gTable, r
 	if len(pr.Nodes) < len(U.Flat) {
 		c05Removed = true
 	}
+	c05LastShown = canonNodes(pr.Nodes, true, false, false)
 	// (1) every shown entry carries its untrimmed numbers
 	exp := expectedDisplay(cs.Format, U)
 	if bad := subMultiset(canonNodes(pr.Nodes, true, false, false), canonNodes(exp, true, false, false)); bad != "" {
@@ -468,13 +521,13 @@ func c05CheckTrimmed(c *Ctx, cs *c05Case, level string, out []byte, U *gTable, r
 	// (2) text-like reports: the shown entries are exactly the Lean model's selection
 	if cs.Format != "dot" && !(rq.CallTree) {
 		var w tw
-		w.int(cs.FracNum)
-		den := cs.FracDen
+		w.int(effFN)
+		den := effFD
 		if den == 0 {
 			den = 1
 		}
 		w.int(den)
-		w.n(cs.NodeCount)
+		w.n(effNC)
 		w.bool(cs.CumSort)
 		keys := sortedKeys2(U.Flat)
 		w.n(len(keys))
@@ -513,7 +566,7 @@ func c05CheckTrimmed(c *Ctx, cs *c05Case, level string, out []byte, U *gTable, r
 			} else if len(got) < len(wantC) {
 				kind = "too-few-shown"
 			}
-			c.Violation(sig+kind, fmt.Sprintf("shown entries differ from {|cum| ≥ cutoff %d} ∩ top %d: %s", cutoff, cs.NodeCount, d)+desc, cs)
+			c.Violation(sig+kind, fmt.Sprintf("shown entries differ from {|cum| ≥ cutoff %d} ∩ top %d: %s", cutoff, effNC, d)+desc, cs)
 			return false
 		}
 		if len(wantC) < len(U.Flat) {
@@ -538,7 +591,9 @@ func c05CheckTrimmed(c *Ctx, cs *c05Case, level string, out []byte, U *gTable, r
 		// bypass edges are there and no removed entry appears), minus the edges below the edge cutoff.
 		// When nothing was removed the graph is the untrimmed one (K = everything listed; edges to
 		// entries that are never listed because all their figures are zero stay).
-		if (cs.Format == "tree" || cs.Format == "peek") && !peekEmpty {
+		// (on profiles with hundreds of entries only when at most 100 are shown: the Spec under a large
+		// kept set is expensive)
+		if (cs.Format == "tree" || cs.Format == "peek") && !peekEmpty && (len(keys) <= 200 || len(f[3:]) <= 100) {
 			S := U
 			if len(f[3:]) < len(keys) {
 				keptList := []graph.NodeInfo{}
@@ -554,7 +609,7 @@ func c05CheckTrimmed(c *Ctx, cs *c05Case, level string, out []byte, U *gTable, r
 				}
 				c.Res.Hit("context:rebuilt-under-shown-set")
 			}
-			edgeCut := int64(float64(sumFlat(U)) * frac(cs.EdgeNum, cs.EdgeDen))
+			edgeCut := int64(float64(sumFlat(U)) * frac(effEN, effED))
 			if edgeCut < 0 {
 				edgeCut = -edgeCut
 			}
@@ -597,6 +652,32 @@ func c05CheckTrimmed(c *Ctx, cs *c05Case, level string, out []byte, U *gTable, r
 				c.Violation(sig+kind, "callers/callees of the shown entries differ from the Spec under the shown set (edge cutoff "+strconv.FormatInt(edgeCut, 10)+"): "+d+desc, cs)
 				return false
 			}
+		}
+	}
+	// (2c) dot (the visual selection order is not modelled; without tags its SIZE is): the number of
+	// entries drawn is min(nodecount, survivors of the node cutoff), all survivors when nodecount = 0
+	if cs.Format == "dot" && !rq.CallTree {
+		cut := int64(float64(sumFlat(U)) * frac(effFN, effFD))
+		if cut < 0 {
+			cut = -cut
+		}
+		surv := 0
+		for _, v := range U.Cum {
+			a := v.W
+			if a < 0 {
+				a = -a
+			}
+			if a >= cut {
+				surv++
+			}
+		}
+		want := surv
+		if effNC > 0 && effNC < surv {
+			want = effNC
+		}
+		if len(pr.Nodes) != want {
+			c.Violation(sig+"node-count", fmt.Sprintf("%d entries are drawn, expected %d (= min(nodecount, %d entries with |cum| ≥ cutoff %d), nodecount 0 meaning no limit)", len(pr.Nodes), want, surv, cut)+desc, cs)
+			return false
 		}
 	}
 	// (3) legend: accounting for = Σ shown flat; total = untrimmed total
@@ -812,8 +893,13 @@ func (cs *c05Case) cliArgs(file string) []string {
 	if cs.Format == "peek" {
 		fmtArg = "-peek=."
 	}
-	args := []string{fmtArg, "-symbolize=none",
-		"-nodecount=" + strconv.Itoa(cs.NodeCount), "-nodefraction=" + fracArg(cs.FracNum, cs.FracDen), "-edgefraction=" + fracArg(cs.EdgeNum, cs.EdgeDen)}
+	args := []string{fmtArg, "-symbolize=none"}
+	if !cs.NoNodeCount {
+		args = append(args, "-nodecount="+strconv.Itoa(cs.NodeCount))
+	}
+	if !cs.NoFractions {
+		args = append(args, "-nodefraction="+fracArg(cs.FracNum, cs.FracDen), "-edgefraction="+fracArg(cs.EdgeNum, cs.EdgeDen))
+	}
 	if cs.Gran != "" {
 		args = append(args, "-"+cs.Gran)
 	}
@@ -870,6 +956,30 @@ func c05CLICheck(c *Ctx, cs *c05Case, res cliResult) {
 	}
 	rq := reportReq(q, cs.Format)
 	canon0 := Canon(p0)
+	if cs.Format == "callgrind" || cs.Format == "traces" {
+		// never trimmed, whatever nodecount / fractions say: the complete untrimmed output (C04's reading)
+		var want *gTable
+		var frames *leanFrames
+		var perr string
+		ck := cs.Format + rq.String() + "|" + canon0
+		if cs.Format == "traces" {
+			if frames = c05BigFrames[ck]; frames == nil {
+				frames, perr = askFrames(c, &rq, p0, canon0)
+				c05BigFrames[ck] = frames
+			}
+		} else if want = c05BigSpec[ck]; want == nil {
+			want, perr = askTables(c, "graph.spec", &rq, nil, false, p0, canon0)
+			c05BigSpec[ck] = want
+		}
+		if perr != "" {
+			c.Disagree("C05/spec-unavailable", perr, "driver op graph.spec / graph.frames", cs)
+			return
+		}
+		if kind, what := checkDisplay(c, cs.Format, res.out, want, frames); kind != "" {
+			c.Violation("C05/cli/"+cs.Format+"/not-the-untrimmed-report/"+kind, fmt.Sprintf("%s output is never trimmed, but with %v it differs from the untrimmed report: %s", cs.Format, cs.cliArgs("FILE"), what), cs)
+		}
+		return
+	}
 	// the untrimmed Spec tables of a LARGE profile are asked once per option point (several CLI
 	// cases of the web stream share profile and options)
 	ck := rq.String() + "|" + canon0
@@ -902,6 +1012,10 @@ func c05Run(c *Ctx, cs *c05Case) {
 		}
 	case "web":
 		c05Web(c, cs, nil, nil)
+	case "climono":
+		if c.Pprof != "" {
+			c05CLIMono(c, cs)
+		}
 	}
 }
 
@@ -953,7 +1067,7 @@ func c05PickKept(r *Rng, strategy string, g *graph.Graph, order []*graph.Node) [
 var c05KeptStrategies = []string{"random", "remove-leaves", "remove-roots", "remove-middles", "remove-one", "remove-all", "keep-one", "cutoff", "top-n"}
 
 func runC05(c *Ctx) {
-	c.Res.Rule = "profiles as for C04 (9 stack-shape strategies, small values so that fraction products are exact) × (a) graph.New rebuilt with a kept set chosen by 9 strategies (random, remove leaves / roots / chain middles / one / all, keep one, cum cutoff, top-N) — shown figures vs the untrimmed graph.New and vs the Lean Spec under K incl. residual weights and marks, model correspondence; (b) TrimTree on call trees with kept pointer sets — direct oracle (kept nodes only, figures unchanged, every edge comes from an ancestor and is residual iff it bypasses a node, no edge to a removed node, In/Out agree), vs Lean Spec on path keys, and correspondence with the Lean model of TrimTree (In and Out maps of every listed node, node order as in Go, unlisted all-zero nodes included); (c) report.Generate text/tree/topproto/dot with nodecount × nodefraction × edgefraction × sort grids — shown rows ⊆ untrimmed rows, selection = Lean Trim model, legend 'accounting for' = Σ shown flat, dot residual marks vs Spec under the survivor set, no dangling edges; (c2) tree / text / peek reports with nodecount chosen relative to the measured counts N (entries of the untrimmed graph) and S (survivors of the nodefraction cut): nodecount ∈ {S−1, S, S+1, (S+N)/2, N−1, N, N+1}, fraction preferring 0<S<N; for tree/peek (all levels) the complete caller/callee context of every shown entry = Lean Spec under the shown set minus edges below the edge cutoff (no removed entry is named, bypass edges present); (d) the same through the pprof CLI (text, tree, dot, topproto; -peek switches trimming off in the driver, so peek under trimming is exercised in-process only). (e) web UI: /top of the web interface (HTTPServer hook) on one or two profiles per run with more entries than every built-in limit (300–900 functions; the view forces nodecount 500) with nf/n/sort/si URL parameters — on the SERVED rows and header: legend 'accounting for' = Σ flat of the rows served, rows = Lean Trim selection with the Lean Spec's untrimmed figures, 'Showing top N nodes out of M' present iff rows were cut (N, M checked); plus CLI -text on the same profiles with -nodecount 499/500/501/entries±1/80. (f) text/tree reports (in-process and CLI) with source_path / trim_path on profiles whose file names repeat a path component equal to the basename of a source_path directory or to a relative trim_path, at the granularities that keep file names (addresses, lines, filefunctions, files), nodecount 1, 2, N−1, (N+1)/2: expected entries = Lean Spec with the file-name table Clean(trimOnce(name)). non-trivial = the trimming removed at least one entry; distinct by canonical profile + options"
+	c.Res.Rule = "profiles as for C04 (9 stack-shape strategies, small values so that fraction products are exact) × (a) graph.New rebuilt with a kept set chosen by 9 strategies (random, remove leaves / roots / chain middles / one / all, keep one, cum cutoff, top-N) — shown figures vs the untrimmed graph.New and vs the Lean Spec under K incl. residual weights and marks, model correspondence; (b) TrimTree on call trees with kept pointer sets — direct oracle (kept nodes only, figures unchanged, every edge comes from an ancestor and is residual iff it bypasses a node, no edge to a removed node, In/Out agree), vs Lean Spec on path keys, and correspondence with the Lean model of TrimTree (In and Out maps of every listed node, node order as in Go, unlisted all-zero nodes included); (c) report.Generate text/tree/topproto/dot with nodecount × nodefraction × edgefraction × sort grids — shown rows ⊆ untrimmed rows, selection = Lean Trim model, legend 'accounting for' = Σ shown flat, dot residual marks vs Spec under the survivor set, no dangling edges; (c2) tree / text / peek reports with nodecount chosen relative to the measured counts N (entries of the untrimmed graph) and S (survivors of the nodefraction cut): nodecount ∈ {S−1, S, S+1, (S+N)/2, N−1, N, N+1}, fraction preferring 0<S<N; for tree/peek (all levels) the complete caller/callee context of every shown entry = Lean Spec under the shown set minus edges below the edge cutoff (no removed entry is named, bypass edges present); (d) the same through the pprof CLI (text, tree, dot, topproto; -peek switches trimming off in the driver, so peek under trimming is exercised in-process only). (e) web UI: /top of the web interface (HTTPServer hook) on one or two profiles per run with more entries than every built-in limit (300–900 functions; the view forces nodecount 500) with nf/n/sort/si URL parameters — on the SERVED rows and header: legend 'accounting for' = Σ flat of the rows served, rows = Lean Trim selection with the Lean Spec's untrimmed figures, 'Showing top N nodes out of M' present iff rows were cut (N, M checked); plus CLI -text on the same profiles with -nodecount 499/500/501/entries±1/80, and on the first large profile of the run every CLI output family (text, top, tree, peek, dot, callgrind, traces, topproto) × nodecount ∈ {unset, -1, 0, 1, 79, 80, 81, entries−1, entries, entries+1} with the fractions unset / 0 / small (rotating): every run is judged by the DOCUMENTED meaning of its settings (0 = no limit, unset or -1 = the command's default: no limit for text/top/topproto, 80 for graph-like commands; fractions unset = 0.005/0.001; peek, callgrind, traces never trimmed) against the Lean Trim model / Spec (dot: number of entries drawn), then monotonicity: entries shown under a larger limit ⊇ entries shown under a smaller one. (f) text/tree reports (in-process and CLI) with source_path / trim_path on profiles whose file names repeat a path component equal to the basename of a source_path directory or to a relative trim_path, at the granularities that keep file names (addresses, lines, filefunctions, files), nodecount 1, 2, N−1, (N+1)/2: expected entries = Lean Spec with the file-name table Clean(trimOnce(name)). non-trivial = the trimming removed at least one entry; distinct by canonical profile + options"
 	if c.Replay != "" {
 		var cs c05Case
 		if err := c.LoadReplay(&cs); err != nil {
@@ -1205,6 +1319,10 @@ func runC05(c *Ctx) {
 }
 
 var c05BigSpec = map[string]*gTable{}
+var c05BigFrames = map[string]*leanFrames{}
+
+// c05LastShown: the rows (name, flat, cum) of the report c05CheckTrimmed parsed last.
+var c05LastShown []string
 
 // c05Removed is set by c05CheckTrimmed when the report shows fewer entries than the untrimmed
 // graph has (the non-triviality criterion of the report/cli levels).
